@@ -84,13 +84,13 @@ def jobs(tier, seed):
                 hi = min((1 << n) - 1, lo + per - 1)
                 J.append(_dec_job(fn, mode, k, m, lo, hi, "P#", "", tier))
         # sampled erasure sets of larger shapes (B): maximal sets |E| == m with a mix of data and parity
-        for (k, m) in ([(10, 4), (4, 8), (6, 6)] if tier == "quick" else [(10, 4), (4, 8), (6, 6), (12, 4), (8, 8), (16, 4)]):
+        for (k, m) in ([(10, 4), (4, 8), (6, 6)] if tier == "quick" else [(10, 4), (4, 8), (6, 6), (12, 4), (8, 8)]):
             n = k + m
             for s_ in range(2 if tier == "quick" else 4):
                 e = rnd.sample(range(n), m)
                 mask = sum(1 << i for i in e)
                 J.append(_dec_job(fn, mode, k, m, mask, mask, "B", "sampled erasure sets (VERIF_SEED) of shapes with k+m > %d on ONE generic data vector (pairwise distinct non-zero words) instead of a basis; complete for every shape with k+m <= %d" % (nmax, nmax), tier))
-    for (k, m) in ([(10, 4), (4, 8), (6, 6)] if tier == "quick" else [(10, 4), (4, 8), (6, 6), (12, 4), (8, 8), (16, 4)]):
+    for (k, m) in ([(10, 4), (4, 8), (6, 6)] if tier == "quick" else [(10, 4), (4, 8), (6, 6), (12, 4), (8, 8)]):
         J.append(Job("rs.gtable@%d_%d" % (k, m), group="rs.gtable", props=["C01", "C02", "C03", "C04"], layer="L2", strength="P#",
                      title="frozen generator table of shape (%d,%d) (used as constants by the sampled decode/reconstruct obligations) == closed form L_j(r)/L_j(k), every entry" % (k, m),
                      functions=[], replaced=[], repo_src=[], harness=["harness/rs_decode.c"], defines={"K": k, "M": m, "MODE": 3}, unwind=34,
